@@ -99,7 +99,9 @@ def branches(w, cbits0):
                     val = 0
                     for c in cc:
                         val = 2 * val + bits[c]
-                    if val != o["ccv"]:
+                    # no value given: the documented default, every listed bit must be 1
+                    want = o["ccv"] if o.get("ccv") is not None else 2 ** len(cc) - 1
+                    if val != want:
                         continue
                 psi = _apply_gate(psi, n, o)
         p = float(np.vdot(psi, psi).real) if alive else 0.0
@@ -125,8 +127,8 @@ def reads_earlier_written_bit(w):
 
 
 def has_big_ccv(w):
-    return any(("M" not in o) and o.get("cc") is not None and not (0 <= o["ccv"] < 2 ** len(o["cc"]))
-               for o in w["ops"])
+    return any(("M" not in o) and o.get("cc") is not None and o.get("ccv") is not None
+               and not (0 <= o["ccv"] < 2 ** len(o["cc"])) for o in w["ops"])
 
 
 def build_from_witness(w):
@@ -274,13 +276,14 @@ def build_assigned(w):
             g.arg_value = o["arg"]
         if o.get("cc") is not None and "cc" in late:
             g.classical_controls = list(o["cc"])
-            g.classical_control_value = o["ccv"]
+            g.classical_control_value = o["ccv"] if o.get("ccv") is not None else 2 ** len(o["cc"]) - 1
     if w.get("reassign"):
         # a second assignment: first a WRONG condition, then the right one again
         for g, o in zip(qc.gates, w["ops"]):
             if "M" not in o and o.get("cc") is not None:
-                g.classical_control_value = (o["ccv"] + 1) % (2 ** len(o["cc"]))
-                g.classical_control_value = o["ccv"]
+                v = o["ccv"] if o.get("ccv") is not None else 2 ** len(o["cc"]) - 1
+                g.classical_control_value = (v + 1) % (2 ** len(o["cc"]))
+                g.classical_control_value = v
     return qc
 
 
@@ -455,7 +458,7 @@ def rand_transformed(rng):
     measurements inside"""
     name = rng.choice(TRANSFORMS + ["assigned", "assigned", "assigned"])
     n = rng.randint(2, 3) if name != "assigned" else rng.randint(1, 3)
-    ncb = rng.randint(1, 2)
+    ncb = rng.choice([1, 2, 2, 3, 4])
     inside = name in ("reverse", "add_circuit", "assigned")
     ops, m = [], 0
     for _ in range(rng.randint(1, 5)):
@@ -481,7 +484,7 @@ def rand_transformed(rng):
         g["cc"], g["ccv"] = None, None
         if rng.random() < 0.7 and not (name == "add_circuit" and "C02-4" in pending()):
             cc = rng.sample(range(ncb), rng.randint(1, ncb))
-            g["cc"], g["ccv"] = cc, rng.randrange(2 ** len(cc))
+            g["cc"], g["ccv"] = cc, (None if rng.random() < 0.3 else rng.randrange(2 ** len(cc)))
         ops.append(g)
     w = {"kind": "transformed", "transform": name, "n": n, "ncb": ncb, "ops": ops, "seed": rng.randrange(1000)}
     if not inside and rng.random() < 0.7:
@@ -557,7 +560,7 @@ ORACLE_1Q = ["X", "Y", "Z", "SNOT", "S", "T", "RX", "RY", "RZ"]
 
 def rand_witness(rng, general=True, dm_safe=False):
     n = rng.randint(1, 3)
-    ncb = rng.randint(0, 3)
+    ncb = rng.choice([0, 1, 2, 3, 3, 4, 5])
     ops, m = [], 0
     for _ in range(rng.randint(1, 7)):
         r = rng.random()
@@ -581,7 +584,8 @@ def rand_witness(rng, general=True, dm_safe=False):
         g["cc"], g["ccv"] = None, None
         if ncb and rng.random() < 0.45:
             cc = rng.sample(range(ncb), rng.randint(1, ncb))
-            g["cc"], g["ccv"] = cc, rng.randrange(2 ** len(cc))
+            # (None = classical_control_value left at its default: every listed bit must be 1)
+            g["cc"], g["ccv"] = cc, (None if rng.random() < 0.3 else rng.randrange(2 ** len(cc)))
         ops.append(g)
     D = 2 ** n
     if rng.random() < 0.3:
@@ -592,6 +596,8 @@ def rand_witness(rng, general=True, dm_safe=False):
         if not any(a or b for a, b in init):
             init[0] = [1, 0]
     cb = None if (ncb == 0 or rng.random() < 0.4) else [rng.randint(0, 1) for _ in range(ncb)]
+    if cb is not None and rng.random() < 0.35:
+        cb = [1] * ncb              # the state in which every default condition holds
     w = {"kind": "branches", "n": n, "ncb": ncb, "ops": ops, "init": init, "cbits": cb, "check": "all"}
     return w
 
@@ -601,6 +607,10 @@ W_ALIAS = {"kind": "branches", "n": 1, "ncb": 1, "check": "stat", "cbits": [0], 
                    {"M": 0, "store": 0}]}
 W_BIGCCV = {"kind": "branches", "n": 1, "ncb": 1, "check": "run", "cbits": [1], "init": [[1, 0], [0, 0]],
             "ops": [{"name": "X", "targets": [0], "controls": None, "arg": None, "cc": [0], "ccv": 2}]}
+W_DEFAULT3 = {"kind": "branches", "n": 1, "ncb": 3, "check": "run", "cbits": [1, 1, 1], "init": [[1, 0], [0, 0]],
+              "ops": [{"name": "X", "targets": [0], "controls": None, "arg": None, "cc": [0, 1, 2], "ccv": None}]}
+W_DEFAULT4 = {"kind": "branches", "n": 1, "ncb": 4, "check": "stat", "cbits": [0, 1, 1, 1], "init": [[1, 0], [0, 0]],
+              "ops": [{"name": "X", "targets": [0], "controls": None, "arg": None, "cc": [0, 1, 2, 3], "ccv": None}]}
 W_DMFF = {"kind": "branches", "n": 2, "ncb": 1, "check": "dm", "cbits": None,
           "init": [[1, 0], [0, 0], [0, 0], [0, 0]],
           "ops": [{"name": "SNOT", "targets": [0], "controls": None, "arg": None, "cc": None, "ccv": None},
@@ -614,6 +624,7 @@ class C02(PropertyCheck):
     drivers = ["drv_sim"]
     theorems = [
         "QipVerif.C02.cond_iff",
+        "QipVerif.C02.cond_default_iff",
         "QipVerif.C02.fires_iff",
         "QipVerif.C02.born_split",
         "QipVerif.C02.probs_sum_one",
@@ -755,11 +766,30 @@ class C02(PropertyCheck):
                                       "ops": [{"g": 0, "q": [0], "cc": list(cs), "ccv": v}],
                                       "lists": [list(bits)], "inits": [{"k": 0, "vecs": [[1, 0]]}],
                                       "calls": [("run", 0, 0, None)]})
-        self._run_cases(ctx, res, cases, lambda c, i: ["table=condition", "k=%d" % len(c["ops"][0]["cc"])],
+        # ... and the DEFAULT value (classical_control_value not given): every ordered subset of 3 and of 4 bits, the
+        # ascending and the descending order of every subset of 5 bits (k = 3..5), every bit vector
+        def table_case(ncb, cs, v, bits):
+            return {"n": 1, "ncb": ncb, "mode": "sv", "ops": [{"g": 0, "q": [0], "cc": list(cs), "ccv": v}],
+                    "lists": [list(bits)], "inits": [{"k": 0, "vecs": [[1, 0]]}], "calls": [("run", 0, 0, None)]}
+        for ncb_ in (3, 4):
+            for k in range(1, ncb_ + 1):
+                for cs in itertools.permutations(range(ncb_), k):
+                    for bits in itertools.product([0, 1], repeat=ncb_):
+                        cases.append(table_case(ncb_, cs, None, bits))
+        for k in range(3, 6):
+            for comb in itertools.combinations(range(5), k):
+                for cs in (comb, comb[::-1]):
+                    for bits in itertools.product([0, 1], repeat=5):
+                        cases.append(table_case(5, cs, None, bits))
+        self._run_cases(ctx, res, cases, lambda c, i: ["table=condition", "k=%d" % len(c["ops"][0]["cc"]),
+                                                       "value=" + ("default" if c["ops"][0]["ccv"] is None else "explicit"),
+                                                       "register=%d" % c["ncb"]],
                         self._to_witness)
         res.exhaustive = True
         res.notes.append("exhaustive: every ordered subset of 3 classical bits (k=0..3) x every control value "
-                         "0..2^(k+1)-1 x every bit vector: firing decision of the real step() against checkCCV")
+                         "0..2^(k+1)-1 x every bit vector; the DEFAULT value for every ordered subset (k>=1) of 3 and of 4 bits "
+                         "and both monotone orders of every subset with k=3..5 of 5 bits x every bit vector: firing decision "
+                         "of the real step() against checkCCV / defaultCcv")
 
         # 2. random circuits x ALL initial bit vectors (caller-supplied) + default x ALL 2^m records
         ncirc = 600 if ctx.thorough else 36
@@ -769,7 +799,10 @@ class C02(PropertyCheck):
             n = rng.randint(1, 3)
             ncb = rng.randint(0, 3)
             assign = it % 3 == 2       # conditions assigned on the gate objects after add_gate
-            ops = S.rand_circuit(rng, n, ncb, rng.randint(1, 8), maxm, big_ccv=(0.0 if assign else 0.04))
+            if it % 6 == 1:
+                ncb = rng.randint(4, 5)            # registers of 4-5 classical bits (all 16 / 32 initial bit vectors)
+            ops = S.rand_circuit(rng, n, ncb, rng.randint(1, 8), (2 if ncb > 3 else maxm),
+                                 big_ccv=(0.0 if assign else 0.04), p_default=0.25)
             m = sum(1 for o in ops if "m" in o)
             mode = "sv" if rng.random() < 0.85 else "dm"
             init = S.rand_init(rng, n, None if mode == "sv" else rng.choice(["basis", "real"]))
@@ -793,7 +826,7 @@ class C02(PropertyCheck):
         for it in range(3000 if ctx.thorough else 80):
             n = rng.randint(1, 3)
             ncb = rng.randint(0, 3)
-            ops = S.rand_circuit(rng, n, ncb, rng.randint(1, 6), 3)
+            ops = S.rand_circuit(rng, n, ncb, rng.randint(1, 6), 3, p_default=0.2)
             m = sum(1 for o in ops if "m" in o)
             mode = "sv" if rng.random() < 0.8 else "dm"
             inits = [S.rand_init(rng, n, None if mode == "sv" else "basis") for _ in range(2)]
@@ -825,7 +858,7 @@ class C02(PropertyCheck):
             case = {"n": n, "ncb": ncb, "mode": mode, "ops": ops, "lists": lists, "inits": inits, "calls": calls}
             gpos = [i for i, o in enumerate(ops) if "g" in o]
             if ncb and gpos and len(calls) >= 2 and rng.random() < 0.5 and \
-                    all(o["cc"] is None or 0 <= o["ccv"] < 2 ** len(o["cc"]) for o in ops if "g" in o):
+                    all(o["cc"] is None or o["ccv"] is None or 0 <= o["ccv"] < 2 ** len(o["cc"]) for o in ops if "g" in o):
                 # between two calls the user RE-ASSIGNS the classical condition of a gate on the gate object
                 # (classical_controls / classical_control_value; sometimes its targets / controls too): the simulator
                 # reads the gate's current attributes at execution time (Model/SimEdit.lean)
@@ -842,7 +875,7 @@ class C02(PropertyCheck):
                         calls.insert(rng.randint(pos + 2, len(calls)), ("edit", 0, rng.choice(["assign", "replace"])))
                     if rng.random() < 0.5:
                         case["assign"] = True
-                        if not all(o["cc"] is None or 0 <= o["ccv"] < 2 ** len(o["cc"]) for o in ops if "g" in o):
+                        if not all(o["cc"] is None or o["ccv"] is None or 0 <= o["ccv"] < 2 ** len(o["cc"]) for o in ops if "g" in o):
                             del case["assign"]
             cases.append(case)
         self._run_cases(ctx, res, cases, lambda c, i: tag(c, i) + ["stream=history"])
@@ -912,7 +945,7 @@ class C02(PropertyCheck):
         rng = ctx.rng
         skip = self._skip_classes()
         t0 = time.time()
-        fixed = [W_ALIAS, W_BIGCCV, W_RESOLVED, W_ASSIGNED] + ([] if "dm-feedforward" in skip else [W_DMFF]) + \
+        fixed = [W_ALIAS, W_BIGCCV, W_DEFAULT3, W_DEFAULT4, W_RESOLVED, W_ASSIGNED] + ([] if "dm-feedforward" in skip else [W_DMFF]) + \
             ([] if "C02-4" in pending() else [W_ADDCIRC])
         for w in fixed:
             f, d = oracle(w)
